@@ -17,6 +17,9 @@ type input struct {
 	// then the literal that denotes the value (the required bits are LLVM's / the spec's reading of it)
 	via string
 	val float64
+	// Positions (spec/FloatLit.tla): the literal stands at place pos of a module ("" and "scalar": initialiser
+	// of a scalar global, the ordinary path), the other leaves of the place hold the literal sibl (class sib)
+	pos, sib, sibl string
 	// fields of spec vectors
 	fromSpec bool
 	valid    bool
